@@ -52,9 +52,11 @@ type lcStep struct {
 	X    string `json:"x"`
 	// hints from the model (only used to decide how long to wait for asynchronous effects; the
 	// verdict is TLC's, on what was observed)
-	ExpAttempts int `json:"expAttempts"`
-	ExpNotif    int `json:"expNotif"`
-	ExpHook     int `json:"expHook"`
+	ExpAttempts int    `json:"expAttempts"`
+	ExpNotif    int    `json:"expNotif"`
+	ExpHook     int    `json:"expHook"`
+	How         string `json:"how"` // Misuse: announce | describe
+	K           int    `json:"k"`   // Describe: number of DESCRIBE requests the player sends
 }
 
 type lcScenario struct {
@@ -463,11 +465,18 @@ func runLifecycleScenario(sc *lcScenario, emitEv func(M)) {
 
 	tick := uint32(0)
 	sweeps := uint32(0)
+	lastHow, lastK := "", 0
 	emit := func(name, x, ret string) {
 		n, h := drain()
 		ev := M{"ev": name, "obs": M{"ret": ret, "notif": n, "hook": h, "attempts": origin.count()}}
 		if x != "" {
 			ev["x"] = x
+		}
+		if name == "Misuse" {
+			ev["how"] = lastHow
+		}
+		if name == "Describe" {
+			ev["k"] = lastK
 		}
 		// stat projection: which sessions the stat API lists
 		st := sm.StatGroup(stream)
@@ -770,6 +779,32 @@ func runLifecycleScenario(sc *lcScenario, emitEv func(M)) {
 			ev := M{"ev": "Probe", "x": x, "obs": M{"ret": ret, "notif": n, "hook": h, "attempts": origin.count(), "fwd": fwd}}
 			emitEv(ev)
 			continue
+		case "Misuse":
+			// a request that does not belong on a publisher's connection
+			if s := sess[x]; s != nil && s.kind == "rtspPub" && s.done != nil {
+				u := "rtsp://127.0.0.1/live/" + stream
+				s.cseq++
+				if st.How == "announce" {
+					sdpBody := "v=0\r\no=- 0 0 IN IP4 127.0.0.1\r\ns=x\r\nc=IN IP4 127.0.0.1\r\nt=0 0\r\nm=video 0 RTP/AVP 96\r\n" +
+						"a=rtpmap:96 H264/90000\r\na=fmtp:96 packetization-mode=1\r\na=control:streamid=0\r\n"
+					s.conn.Feed([]byte(fmt.Sprintf("ANNOUNCE %s RTSP/1.0\r\nCSeq: %d\r\nContent-Type: application/sdp\r\nContent-Length: %d\r\n\r\n%s",
+						u, s.cseq, len(sdpBody), sdpBody)))
+				} else {
+					s.conn.Feed([]byte(fmt.Sprintf("DESCRIBE %s RTSP/1.0\r\nCSeq: %d\r\nAccept: application/sdp\r\n\r\n", u, s.cseq)))
+				}
+				select {
+				case <-s.done: // the routine ended: the connection is closed
+				case <-time.After(2 * time.Second):
+					// still open: hang up, so that the scenario can go on; what was (not) reported is the observation
+					s.conn.Close()
+					select {
+					case <-s.done:
+					case <-time.After(3 * time.Second):
+					}
+				}
+			}
+			lastHow = st.How
+			emit("Misuse", x, "ok")
 		case "KeepAlive":
 			ret := "err"
 			if s := sess[x]; s != nil && s.kind == "rtspPub" {
@@ -790,6 +825,11 @@ func runLifecycleScenario(sc *lcScenario, emitEv func(M)) {
 			pc.cseq = 1
 			var all []byte
 			pc.keep = &all
+			if st.K >= 2 {
+				// the same request again on the same connection
+				pc.conn.Feed([]byte("DESCRIBE " + u + " RTSP/1.0\r\nCSeq: 2\r\nAccept: application/sdp\r\n\r\n"))
+				pc.cseq = 2
+			}
 			lcRtspRequest(pc, "OPTIONS "+u+" RTSP/1.0\r\n")
 			ret := "wait"
 			if bytes.Contains(all, []byte("application/sdp")) {
@@ -800,6 +840,7 @@ func runLifecycleScenario(sc *lcScenario, emitEv func(M)) {
 			case <-pc.done:
 			case <-time.After(3 * time.Second):
 			}
+			lastK = st.K
 			emit("Describe", "", ret)
 		case "Sweep":
 			// a tick whose count is a multiple of base.LogicCheckSessionAliveIntervalSec (120): the idle check runs
